@@ -235,6 +235,7 @@ func (c *ctx) cycleSearch() {
 		c.s.OK("G26", key, c.pos(rec), "no memo: every node is searched on every visit")
 		return
 	}
+	c.memoLifetime(rfc, rec, memoWrites[0].at)
 	// post-order: every memo write comes after every recursive call and is not inside a loop that contains one
 	postOrder := true
 	for _, w := range memoWrites {
@@ -276,4 +277,124 @@ func (c *ctx) cycleSearch() {
 		}
 	}
 	c.s.Check(good, "G26", key, c.pos(memoWrites[0].at), "the memo is written before the subtree is searched, but the on-path test comes first and uses the memo's key", "the memo is written before the node's subtree has been searched and "+why+": a node that is still on the path can be skipped as `already checked`, so a cycle that re-enters it under the other key is not reported (cff then recurses without bound in toposort or generates code for a cyclic flow)")
+}
+
+// memoLifetime: the memo of the cycle search is keyed by type (or function), but whether a type leads into a cycle
+// depends on the flow searched (its provider table; predicate sentinels are numbered per flow). The memo must
+// therefore be created for the search of ONE flow: traced from the recursive search up through the callers, it must
+// end in a local variable of a function that works on one flow (takes the flow), not in a field of a longer-lived
+// object or a package-level variable.
+func (c *ctx) memoLifetime(rfc *fileCtx, rec *ast.FuncDecl, write ast.Node) {
+	info := c.inter.TypesInfo
+	key := rfc.funcName(rec) + "|the memo of the cycle search lives for the search of one flow"
+	// the memo object in rec: the root identifier of the written expression
+	var memoObj types.Object
+	switch w := write.(type) {
+	case *ast.CallExpr:
+		if se, ok := w.Fun.(*ast.SelectorExpr); ok {
+			memoObj = astx.IdentObj(info, se.X)
+		}
+	case *ast.AssignStmt:
+		for _, l := range w.Lhs {
+			if ix, ok := astx.Unparen(l).(*ast.IndexExpr); ok {
+				memoObj = astx.IdentObj(info, ix.X)
+			}
+		}
+	}
+	if memoObj == nil {
+		c.s.Unk("G26", key, c.pos(write), "the memo written here is not a plain variable or parameter")
+		return
+	}
+	takesFlow := func(fd *ast.FuncDecl) bool {
+		for _, f := range fd.Type.Params.List {
+			t := info.TypeOf(f.Type)
+			if p, ok := t.(*types.Pointer); ok {
+				t = p.Elem()
+			}
+			if n, ok := t.(*types.Named); ok && n.Obj().Name() == "flow" && n.Obj().Pkg() == c.inter.Types {
+				return true
+			}
+		}
+		return false
+	}
+	paramIndex := func(fd *ast.FuncDecl, obj types.Object) int {
+		k := 0
+		for _, f := range fd.Type.Params.List {
+			for _, nm := range f.Names {
+				if info.Defs[nm] == obj {
+					return k
+				}
+				k++
+			}
+		}
+		return -1
+	}
+	type verdict struct {
+		ok  bool
+		why string
+		at  ast.Node
+	}
+	var trace func(fd *ast.FuncDecl, obj types.Object, depth int) []verdict
+	trace = func(fd *ast.FuncDecl, obj types.Object, depth int) []verdict {
+		idx := paramIndex(fd, obj)
+		if idx < 0 {
+			// a local of fd
+			if takesFlow(fd) {
+				return []verdict{{true, "a local variable of " + fd.Name.Name + ", which works on one flow", fd}}
+			}
+			return []verdict{{false, "a variable of " + fd.Name.Name + ", which is not called per flow", fd}}
+		}
+		if depth > 4 {
+			return []verdict{{false, "the origin of the memo could not be traced", fd}}
+		}
+		self, _ := info.Defs[fd.Name].(*types.Func)
+		var out []verdict
+		for _, fc := range c.files {
+			if fc.pkg != c.inter {
+				continue
+			}
+			for _, d := range fc.file.Decls {
+				caller, ok := d.(*ast.FuncDecl)
+				if !ok || caller.Body == nil || caller == fd {
+					continue
+				}
+				ast.Inspect(caller.Body, func(n ast.Node) bool {
+					call, ok := n.(*ast.CallExpr)
+					if !ok || astx.Callee(info, call) != self || idx >= len(call.Args) {
+						return true
+					}
+					e := astx.Unparen(call.Args[idx])
+					if u, ok := e.(*ast.UnaryExpr); ok {
+						e = astx.Unparen(u.X)
+					}
+					switch x := e.(type) {
+					case *ast.Ident:
+						o := astx.ObjOf(info, x)
+						if v, ok := o.(*types.Var); ok && v.Parent() == c.inter.Types.Scope() {
+							out = append(out, verdict{false, "the package-level variable " + x.Name, call})
+							return true
+						}
+						out = append(out, trace(caller, o, depth+1)...)
+					case *ast.SelectorExpr:
+						out = append(out, verdict{false, "the field " + astx.Short(x) + ", which lives as long as its object", call})
+					default:
+						out = append(out, verdict{false, "the expression " + astx.Short(e), call})
+					}
+					return true
+				})
+			}
+		}
+		if len(out) == 0 {
+			out = append(out, verdict{false, "no caller of " + fd.Name.Name + " found", fd})
+		}
+		return out
+	}
+	vs := trace(rec, memoObj, 0)
+	for _, v := range vs {
+		if !v.ok {
+			c.s.Bad("G26", key, c.pos(v.at), "the memo of the cycle search is "+v.why+": it is keyed by type, but whether a type leads into a cycle depends on the flow searched; an entry left by one flow makes the search of a later flow skip a subtree, and a cycle there is not reported (cff then loops in toposort or generates code for a cyclic flow)")
+			return
+		}
+	}
+	c.s.OK("G26", key, c.pos(vs[0].at), "the memo is "+vs[0].why)
 }
